@@ -32,7 +32,7 @@ claim("C12",
       "TLA+ spec ConfigId : TLC exhaustive on reduced widths, C->S trace validation of real ConfigId events at real widths", "DESIGN.md section 4 C12")
 claim("C20",
       "TLC exhausts the reader-writer lock model (one action per acquire/release of the five underlying locks) for 2R+2W and larger instances: mutual exclusion, reader sharing reachable, deadlock freedom, termination under weak fairness; EVERY edge of TLC's state graph is then walked on the real RWLock running on real threads under a controlled scheduler with the full projected state and the enabled set compared after every step (bisimulation within the bound). The lazy-table / in-place rescaling model (LazyTable) is exhausted by TLC and every line-level (thorough: byte-code-level) preemption point of the real _maybe_precompute / scale is exercised against complete operations of a second thread, the observations validated by Trace_LazyTable. A lock whose internal structure differs from the model is explored as a black box against the abstract lock (RWLockAbs); an inductive invariant of the lock model (any number of steps and passes) is checked with Apalache.",
-      "Trusted: TLC; preemption of the lock code only at lock calls (counters are only touched under their mutex; a mutant moving the counter is detected); CPython GIL semantics for single attribute assignment.",
+      "Trusted: TLC; the lock is pre-empted at every lock primitive and, in the black-box exploration, before every source line of the lock module that touches shared state (RWLockFine.tla is the model at that grain); CPython GIL semantics for single attribute assignment. The mapping from the implementation to the model's variables is found by value (the builder's list, the coordinate triple), not by private names; interruptions are not injected at the header line of a with statement or inside a finally body (no real asynchronous exception lands there).",
       "TLA+ specs RWLock + LazyTable : TLC exhaustive, S->C walk of every state-graph edge on the real lock under a controlled scheduler, C->S trace validation of preemption observations", "DESIGN.md section 4 C20")
 
 
@@ -111,9 +111,9 @@ def main():
          "engines": [{"name": "tlc", "path": "/opt/veriftools/tla/tla2tools.jar", "serves_properties": sorted(CHECKS),
                       "kind_free_text": "TLA+ specifications under /verif/spec checked by TLC (bounded exhaustive model checking, trace validation of events recorded from the real code, generation of cases replayed on the real code)"},
                      {"name": "apalache", "path": "/opt/veriftools/apalache/bin/apalache-mc", "serves_properties": ["C20"],
-                      "kind_free_text": "inductive invariants of the reader-writer lock model (spec/RWLockInd.tla) and, where delivered, of the lazy-table model: Init => IndInv, IndInv /\\ Next => IndInv', IndInv => safety, for fixed numbers of threads and any number of steps / passes; TLC binds the Apalache-typed restatement to the TLC model; in addition to, not instead of, the TLC checks"}],
+                      "kind_free_text": "inductive invariants of the reader-writer lock model (spec/RWLockInd.tla) and of the lazy-table model (spec/LazyTableInd.tla, every table length up to 32 / 128 in one run): Init => IndInv, IndInv /\\ Next => IndInv', IndInv => safety, for fixed numbers of threads and any number of steps / passes; TLC binds the Apalache-typed restatement to the TLC model; in addition to, not instead of, the TLC checks"}],
          "checks": [], "not_applicable": [],
-         "notes": "All checks: bin/check <id> --tier quick|thorough. Exit 0 held, 1 VIOLATION, 2 machinery failure. Known findings: known_findings.json. Every check runs twice: normally, and in a child interpreter started with python -O -W error::DeprecationWarning (C10, C12, C15 additionally in the bare C locale); TLC runs that do not depend on the implementation are shared between the passes (VERIF_SECOND_PASS=0 switches the second pass off). Replay files record the interpreter flags. Seeded-change evaluation: tools/eval_mutants.py (DESIGN.md 9.7 - 9.12)."}
+         "notes": "All checks: bin/check <id> --tier quick|thorough. Exit 0 held, 1 VIOLATION, 2 machinery failure. Known findings: known_findings.json. Every check runs twice: normally, and in a child interpreter started with python -O -W error::DeprecationWarning (C10, C12, C15 additionally in the bare C locale); TLC runs that do not depend on the implementation are shared between the passes (VERIF_SECOND_PASS=0 switches the second pass off). Replay files record the interpreter flags. Seeded-change evaluation: tools/eval_mutants.py (DESIGN.md 9.7 - 9.13); behaviour-preserving changes (false-alarm test): tools/eval_benign.py, seeded/benign, seeded/benign2 (DESIGN.md 9.14)."}
     for p in props:
         pid = p["id"]
         if pid in CHECKS:
